@@ -74,7 +74,10 @@ Print Assumptions C09_tokenize_bond_line.
       element, charge when non-zero and within -15..15, mass when > 0, radical when 1..3, the
       coordinate tokens) and bonds (end points, type, default 1), for every molecule whose
       symbols are in the element table, whose coordinate tokens float() accepts, whose node
-      names are distinct and whose bonds are listed once between existing nodes *)
+      names are distinct and whose bonds are listed once between two different existing nodes
+      (mol_ok; mo_noloop: the reader rejects a bond from an atom to itself -- every wfg graph
+      qualifies, see C09_written_ok.  Negative masses / radicals are never written, so they need
+      no hypothesis) *)
 Theorem C09_write_read_roundtrip : forall (line2 : text) (m : mol rpay (option Z)),
   mol_ok m ->
   read_v3000 (write_lines line2 m) = ok (map expected_atom (atoms m), map expected_bond (bonds m)).
